@@ -325,7 +325,14 @@ pub fn minimise(world: &dyn World, plan: &Plan, viol: &Violation, budget: u64) -
             }
         }
         // 4. simpler configuration
-        for cfg in world.simplify_cfg(&best) {
+        let mut simpler_cfgs = world.simplify_cfg(&best);
+        if best.get_or("prelude", 1) != 0 && crate::worlds::prelude::wanted(best.seed) {
+            // a run that began with earlier work on its thread: does the violation need it?
+            let mut c = best.cfg.clone();
+            c.insert("prelude".into(), 0);
+            simpler_cfgs.push(c);
+        }
+        for cfg in simpler_cfgs {
             if execs >= budget || t_min.elapsed().as_secs() >= 120 {
                 break;
             }
